@@ -65,7 +65,22 @@ def real_of(ob):
     return ob.__self__ if isinstance(ob, super) else ob
 
 
+class EntryRaised(Exception):
+    """An entry point raised where the unchanged tree never does (the C
+    accelerator has no Python frames, so the runner cannot tell by itself
+    that the exception came out of the library)."""
+
+
 def entry(reg, ep, ob, prov, name):
+    try:
+        return _entry(reg, ep, ob, prov, name)
+    except (ValueError, EntryRaised):
+        raise
+    except Exception as e:
+        raise EntryRaised('%s raised %s: %s' % (ep, type(e).__name__, e))
+
+
+def _entry(reg, ep, ob, prov, name):
     spec = providedBy(ob)
     if ep == 'lookup':
         return reg.lookup((spec,), prov, name, SENT)
@@ -155,6 +170,25 @@ def eval_registry(h, flavour, combo, vals, stats, places=None):
                             return ('entry-point-disagrees:' + ep, obname, pn, name,
                                     'warmed by %s' % warm, repr(got)[:200],
                                     'default' if exp is SENT else repr(exp)[:200])
+                # defaults are returned by identity whether or not the miss was
+                # cached, under another default or none
+                if ref is SENT:
+                    for first in EPS[:7]:
+                        reg = fresh()
+                        entry(reg, first, ob, prov, name)          # a miss under the default SENT
+                        spec = providedBy(ob)
+                        d2 = object()
+                        got = (reg.lookup((spec,), prov, name, d2), reg.lookup1(spec, prov, name, d2),
+                               reg.queryAdapter(ob, prov, name, d2), reg.adapter_hook(prov, ob, name, d2),
+                               reg.queryMultiAdapter((ob,), prov, name, d2))
+                        stats[0] += 5
+                        if any(g is not d2 for g in got):
+                            return ('default-not-returned-by-identity-after-a-cached-miss', obname, pn,
+                                    name, 'first call: ' + first, [g is d2 for g in got])
+                        if reg.lookup((spec,), prov, name) is not None or \
+                                reg.lookup1(spec, prov, name) is not None or \
+                                reg.queryAdapter(ob, prov, name) is not None:
+                            return ('default-None-not-returned-after-a-cached-miss', obname, pn, name, first)
                 # dict(lookupAll) maps every name to lookup(name); names lists its keys
                 reg = fresh()
                 spec = providedBy(ob)
@@ -257,12 +291,15 @@ def evaluate(arg):
     n = 0
     for it in items:
         n += 1
-        if it[0] == 'reg':
-            v = eval_registry(h, flavour, it[1], it[2], stats, it[3] if len(it) > 3 else None)
-        elif it[0] == 'multi':
-            v = eval_multi(h, flavour, stats)
-        else:
-            v = eval_badnames(h, flavour, stats)
+        try:
+            if it[0] == 'reg':
+                v = eval_registry(h, flavour, it[1], it[2], stats, it[3] if len(it) > 3 else None)
+            elif it[0] == 'multi':
+                v = eval_multi(h, flavour, stats)
+            else:
+                v = eval_badnames(h, flavour, stats)
+        except EntryRaised as e:
+            v = ('entry-point-raised', str(e)[:300])
         if v:
             viol.append(dict(sig='C08:' + v[0], case=dict(flavour=flavour, item=it),
                              detail=dict(flavour=flavour, item=it, violation=v)))
